@@ -245,9 +245,17 @@ func (p *process) cleanup(cancel context.CancelFunc) {
 		}
 	}()
 
-	if p.context.parentCtx != nil {
-		p.context.parentCtx.children.Delete(p.pid.ID)
-	}
+	// The parent keeps seeing this child, and the registry this process, until it has
+	// handled Stopped: a parent that shuts down while this child is stopping for another
+	// reason (its own Poison, a third party, max restarts) then still finds it, asks it to
+	// stop and is signalled when it really has stopped - not before.
+	defer func() {
+		p.context.engine.Registry.Remove(p.pid)
+		if p.context.parentCtx != nil {
+			p.context.parentCtx.children.Delete(p.pid.ID)
+		}
+		p.context.engine.BroadcastEvent(ActorStoppedEvent{PID: p.pid, Timestamp: time.Now()})
+	}()
 
 	if p.context.children.Len() > 0 {
 		children := p.context.Children()
@@ -258,11 +266,8 @@ func (p *process) cleanup(cancel context.CancelFunc) {
 
 	p.terminated = true
 	p.inbox.Stop()
-	p.context.engine.Registry.Remove(p.pid)
 	p.context.message = Stopped{}
 	applyMiddleware(p.context.receiver.Receive, p.Opts.Middleware...)(p.context)
-
-	p.context.engine.BroadcastEvent(ActorStoppedEvent{PID: p.pid, Timestamp: time.Now()})
 }
 
 func (p *process) PID() *PID { return p.pid }
